@@ -49,7 +49,7 @@ func xmlName(r *rand.Rand) string {
 }
 
 func xmlText(r *rand.Rand, forbid string) string {
-	alphabet := []string{"a", "b", "Z", "0", " ", "\n", "\t", "é", "日本", ".", ",", "-", "]", "]]", ">", "/", "?", "!", "'", "\"", "=", "&amp;", "&#x41;", "--", "[", "x y"}
+	alphabet := []string{"a", "b", "Z", "0", " ", "\n", "\t", "é", "日本", ".", ",", "-", "]", "]]", ">", "/", "?", "!", "'", "\"", "=", "&amp;", "&#x41;", "--", "[", "x y", "\ufeff", "\ufffd"}
 	n := 1 + SmallLen(r, 10)
 	var sb strings.Builder
 	for i := 0; i < n; i++ {
@@ -157,7 +157,9 @@ func XMLDoc(r *rand.Rand) (doc string, toks []XTok) {
 			body += " ["
 			for j := r.Intn(3); j >= 0; j-- {
 				body += Pick(r, []string{"<!ENTITY a \"b>c]d\">", "<!ELEMENT x (#PCDATA)>", "<!ATTLIST x y CDATA #IMPLIED>", "\n", " ", "<!ENTITY % p \"q\">", "<!ENTITY w \"Writer's name\">", "<!ENTITY q \"'>]'\">",
-					"<!ENTITY rb ']'>", "<!ENTITY lb '['>", "<!ENTITY dq '\"'>", "<!ENTITY gt '>'>", "<!-- a ] comment -->", "<!-- see [1 -->", "<!-- it's \"odd\" > -->", "<!ENTITY sq \"'\">", "<?app idx[0 ?>", "<?x ] y?>", "<?q z]]?>"})
+					"<!ENTITY rb ']'>", "<!ENTITY lb '['>", "<!ENTITY dq '\"'>", "<!ENTITY gt '>'>", "<!-- a ] comment -->", "<!-- see [1 -->", "<!-- it's \"odd\" > -->", "<!ENTITY sq \"'\">", "<?app idx[0 ?>", "<?x ] y?>", "<?q z]]?>",
+					// the other construct's terminator inside a comment / a processing instruction
+					"<!-- what's new?> it's this -->", "<!-- ?>]> -->", "<?p a--> b?>", "<?p -->']>?>"})
 			}
 			body += "]"
 		}
